@@ -36,6 +36,12 @@ type Rule struct {
 	// e.g. "disable promql/series(foo)". Rendered inside the rule mapping,
 	// right after its first key, so yaml.v3 attaches them to this rule.
 	Ctl []string `json:"ctl,omitempty"`
+	// Invalid != "": the rule is rendered in a form that pint (and Prometheus)
+	// reject at the RULE level (the file and the other rules still parse); one of
+	// InvalidKinds. Such a rule has no parsed content: it is neither a provider
+	// nor a dependant nor subject to classification; all other fields but the
+	// cosmetics are ignored.
+	Invalid string `json:"invalid,omitempty"`
 
 	// cosmetics ---------------------------------------------------------
 	Blank     int    `json:"blank,omitempty"`      // blank lines before the rule
@@ -70,7 +76,36 @@ type RuleInfo struct {
 	ExprLine int // first line of the expression value
 }
 
+// InvalidKinds are the rule-level defects the renderer can produce.
+var InvalidKinds = []string{"rec-annotations", "rec-for", "no-expr", "both", "dup-key", "empty-label", "list-label", "name-label"}
+
+func invalidLines(kind string) []string {
+	switch kind {
+	case "rec-annotations":
+		return []string{"record: broken:rule", "expr: up", "annotations:", `  summary: "x"`}
+	case "rec-for":
+		return []string{"record: broken:rule", "expr: up", "for: 5m"}
+	case "no-expr":
+		return []string{"alert: Broken", "for: 5m"}
+	case "both":
+		return []string{"alert: Broken", "record: broken:rule", "expr: up"}
+	case "dup-key":
+		return []string{"alert: Broken", "expr: up", "expr: up"}
+	case "empty-label":
+		return []string{"alert: Broken", "expr: up", "labels:", `  "": "x"`}
+	case "list-label":
+		return []string{"alert: Broken", "expr: up", "labels:", "  team: [a]"}
+	default: // name-label
+		return []string{"record: broken:rule", "expr: up", "labels:", `  __name__: "x"`}
+	}
+}
+
+func (r Rule) Valid() bool { return r.Invalid == "" }
+
 func (r Rule) Kind() string {
+	if r.Invalid != "" {
+		return "invalid"
+	}
 	if r.Alert {
 		return "alerting"
 	}
@@ -110,6 +145,31 @@ func (f File) Rules() []Rule {
 		out = append(out, g.Rules...)
 	}
 	return out
+}
+
+// ValidRules returns the rules that parse, in file order, with their positions.
+func (f File) ValidRules() ([]Rule, []RuleInfo) {
+	_, infos := Render(f)
+	var rs []Rule
+	var is []RuleInfo
+	for i, r := range f.Rules() {
+		if r.Valid() {
+			rs = append(rs, r)
+			is = append(is, infos[i])
+		}
+	}
+	return rs, is
+}
+
+// InvalidCount is the number of rules with a rule-level defect.
+func (f File) InvalidCount() int {
+	n := 0
+	for _, r := range f.Rules() {
+		if !r.Valid() {
+			n++
+		}
+	}
+	return n
 }
 
 // DisableSet is the sorted, de-duplicated set of file-level disabled checks.
@@ -237,6 +297,18 @@ func Render(f File) (string, []RuleInfo) {
 			}
 			info := RuleInfo{Group: gi, Index: idx}
 			idx++
+			if r.Invalid != "" {
+				for i, l := range invalidLines(r.Invalid) {
+					if i == 0 {
+						info.First = w.ln(rpad + "- " + l)
+					} else {
+						info.Last = w.ln(kpad + l)
+					}
+				}
+				info.ExprLine = info.First
+				infos = append(infos, info)
+				continue
+			}
 			nameKey := "record"
 			if r.Alert {
 				nameKey = "alert"
@@ -330,6 +402,9 @@ func Render(f File) (string, []RuleInfo) {
 
 // Describe is a short human-readable form of a rule for error messages.
 func (r Rule) Describe() string {
+	if r.Invalid != "" {
+		return "invalid rule (" + r.Invalid + ")"
+	}
 	s := fmt.Sprintf("%s %q expr=%q", r.Kind(), r.Name, r.Expr)
 	if r.For != "" {
 		s += " for=" + r.For
